@@ -311,6 +311,350 @@ theorem mkEdge_vkeys (m : Mesh) (k a b : Id) :
     (m.mkEdge k a b).vertices.map (·.1) = m.vertices.map (·.1) := by
   simp [mkEdge_vertices, List.map_map, Function.comp_def]
 
+/-! ### mkEdge -/
+
+def ConsP (m : Mesh) : Prop :=
+  KeysP m ∧ OwnEdgesP m ∧ OwnCellsP m ∧ RefsP m ∧ CellsNodupP m ∧ CyclesJoinedP m
+
+theorem OwnEdgesP_of_sim (m m' : Mesh) (he : m'.edges = m.edges)
+    (hv : ∀ p' ∈ m'.vertices, ∃ p ∈ m.vertices, p'.2.id = p.2.id ∧ p'.2.ownEdges = p.2.ownEdges)
+    (h : OwnEdgesP m) : OwnEdgesP m' := by
+  intro p' hp'
+  obtain ⟨p, hp, h1, h2⟩ := hv p' hp'
+  rw [he, h1, h2]
+  exact h p hp
+
+theorem OwnCellsP_of_sim (m m' : Mesh) (he : m'.cells = m.cells)
+    (hv : ∀ p' ∈ m'.vertices, ∃ p ∈ m.vertices, p'.2.id = p.2.id ∧ p'.2.ownCells = p.2.ownCells)
+    (h : OwnCellsP m) : OwnCellsP m' := by
+  intro p' hp'
+  obtain ⟨p, hp, h1, h2⟩ := hv p' hp'
+  rw [he, h1, h2]
+  exact h p hp
+
+theorem addEdgeTo_id (v : Vertex) (k : Id) : (addEdgeTo v k).id = v.id := by
+  unfold addEdgeTo; split <;> rfl
+theorem addEdgeTo_ownCells (v : Vertex) (k : Id) : (addEdgeTo v k).ownCells = v.ownCells := by
+  unfold addEdgeTo; split <;> rfl
+theorem addEdgeTo_ownEdges_of_not_mem (v : Vertex) (k : Id) (h : k ∉ v.ownEdges) :
+    (addEdgeTo v k).ownEdges = v.ownEdges ++ [k] := by
+  unfold addEdgeTo; simp [h]
+
+theorem JoinedP_symm {m : Mesh} {a b : Id} (h : JoinedP m a b) : JoinedP m b a := by
+  obtain ⟨q, hq, h⟩ := h
+  exact ⟨q, hq, h.symm⟩
+
+/-- own edges reference edge keys -/
+theorem OwnEdgesP.mem_keys {m : Mesh} (h : OwnEdgesP m) {p : Id × Vertex} (hp : p ∈ m.vertices)
+    {e : Id} (he : e ∈ p.2.ownEdges) : e ∈ m.edges.map (·.1) := by
+  obtain ⟨ed, hed, _⟩ := (h p hp).1 e he
+  exact List.mem_map.mpr ⟨(e, ed), alGet?_some_mem hed, rfl⟩
+
+theorem mkEdge_ownEdgesP (m : Mesh) (k a b : Id) (hv : ∀ p ∈ m.vertices, p.1 = p.2.id)
+    (h : OwnEdgesP m) (hk : k ∉ m.edges.map (·.1)) :
+    OwnEdgesP (m.mkEdge k a b) := by
+  intro p' hp'
+  rw [mkEdge_vertices] at hp'
+  obtain ⟨p, hp, rfl⟩ := List.mem_map.mp hp'
+  have hkp : k ∉ p.2.ownEdges := fun hh => hk (h.mem_keys hp hh)
+  obtain ⟨h1, h2, h3⟩ := h p hp
+  have hid := hv p hp
+  rw [mkEdge_edges, filter_ne_of_not_mem_keys _ _ hk]
+  by_cases hab : p.1 = a ∨ p.1 = b
+  · simp only [hab, ↓reduceIte, addEdgeTo_id, addEdgeTo_ownEdges_of_not_mem _ _ hkp]
+    refine ⟨?_, ?_, ?_⟩
+    · intro e he
+      rcases List.mem_append.mp he with he | he
+      · obtain ⟨ed, hed, hends⟩ := h1 e he
+        exact ⟨ed, by simp [alGet?_append, hed], hends⟩
+      · simp only [List.mem_singleton] at he
+        subst he
+        refine ⟨{ id := e, v1 := a, v2 := b }, ?_, ?_⟩
+        · simp [alGet?_append, (alGet?_eq_none_iff _ _).mpr hk, alGet?]
+        · simp only; rw [← hid]; rcases hab with h | h <;> simp [h]
+    · intro q hq hends
+      rcases List.mem_append.mp hq with hq | hq
+      · exact List.mem_append_left _ (h2 q hq hends)
+      · simp only [List.mem_singleton] at hq
+        subst hq; simp
+    · rw [List.nodup_append]
+      refine ⟨h3, by simp, ?_⟩
+      intro x hx y hy
+      simp only [List.mem_singleton] at hy
+      subst hy
+      intro hxy; subst hxy; exact hkp hx
+  · simp only [hab, ↓reduceIte]
+    refine ⟨?_, ?_, h3⟩
+    · intro e he
+      obtain ⟨ed, hed, hends⟩ := h1 e he
+      exact ⟨ed, by simp [alGet?_append, hed], hends⟩
+    · intro q hq hends
+      rcases List.mem_append.mp hq with hq | hq
+      · exact h2 q hq hends
+      · simp only [List.mem_singleton] at hq
+        subst hq
+        simp only [not_or] at hab
+        simp only at hends
+        rw [← hid] at hends
+        rcases hends with h | h
+        · exact absurd h.symm hab.1
+        · exact absurd h.symm hab.2
+
+theorem mkEdge_consP (m : Mesh) (k a b : Id) (h : ConsP m) (hk : k ∉ m.edges.map (·.1))
+    (ha : a ∈ m.vertices.map (·.1)) (hb : b ∈ m.vertices.map (·.1)) :
+    ConsP (m.mkEdge k a b) := by
+  obtain ⟨hK, hE, hC, hR, hN, hJ⟩ := h
+  have hedges : (m.mkEdge k a b).edges = m.edges ++ [(k, { id := k, v1 := a, v2 := b })] := by
+    rw [mkEdge_edges, filter_ne_of_not_mem_keys _ _ hk]
+  have hsim : ∀ p' ∈ (m.mkEdge k a b).vertices, ∃ p ∈ m.vertices, p'.1 = p.1 ∧ p'.2.id = p.2.id ∧
+      p'.2.ownCells = p.2.ownCells := by
+    intro p' hp'
+    rw [mkEdge_vertices] at hp'
+    obtain ⟨p, hp, rfl⟩ := List.mem_map.mp hp'
+    refine ⟨p, hp, rfl, ?_, ?_⟩ <;> (simp only; split <;> simp [addEdgeTo_id, addEdgeTo_ownCells])
+  refine ⟨?_, mkEdge_ownEdgesP m k a b hK.1 hE hk, ?_, ?_, ?_, ?_⟩
+  · obtain ⟨k1, k2, k3, k4, k5, k6⟩ := hK
+    refine ⟨?_, ?_, k3, ?_, ?_, k6⟩
+    · intro p' hp'
+      obtain ⟨p, hp, e1, e2, _⟩ := hsim p' hp'
+      rw [e1, e2]; exact k1 p hp
+    · intro q hq
+      rw [hedges] at hq
+      rcases List.mem_append.mp hq with hq | hq
+      · exact k2 q hq
+      · simp only [List.mem_singleton] at hq; subst hq; rfl
+    · rw [mkEdge_vkeys]; exact k4
+    · rw [hedges, List.map_append, List.nodup_append]
+      refine ⟨k5, by simp, ?_⟩
+      intro x hx y hy
+      simp only [List.map_cons, List.map_nil, List.mem_singleton] at hy
+      subst hy
+      intro hxy; subst hxy; exact hk hx
+  · refine OwnCellsP_of_sim m (m.mkEdge k a b) rfl ?_ hC
+    intro p' hp'
+    obtain ⟨p, hp, _, e2, e3⟩ := hsim p' hp'
+    exact ⟨p, hp, e2, e3⟩
+  · refine ⟨?_, ?_⟩
+    · intro q hq
+      rw [hedges] at hq
+      rw [mkEdge_vkeys]
+      rcases List.mem_append.mp hq with hq | hq
+      · exact hR.1 q hq
+      · simp only [List.mem_singleton] at hq; subst hq; exact ⟨rfl, ha, hb⟩
+    · intro q hq
+      rw [mkEdge_vkeys]
+      exact hR.2 q hq
+  · exact hN
+  · intro q hq ab hab
+    obtain ⟨e, he, hh⟩ := hJ q hq ab hab
+    exact ⟨e, by rw [hedges]; exact List.mem_append_left _ he, hh⟩
+
+/-! ### mkVertex, mkCell -/
+
+theorem mkVertex_consP (m : Mesh) (k : Id) (x y : Rat) (h : ConsP m) (hk : k ∉ m.vertices.map (·.1)) :
+    ConsP (m.mkVertex k x y) ∧
+    (m.mkVertex k x y).vertices.map (·.1) = m.vertices.map (·.1) ++ [k] ∧
+    (m.mkVertex k x y).edges = m.edges ∧ (m.mkVertex k x y).cells = m.cells := by
+  obtain ⟨hK, hE, hC, hR, hN, hJ⟩ := h
+  have hverts : (m.mkVertex k x y).vertices =
+      m.vertices ++ [(k, { id := k, x := x, y := y, ownEdges := [], ownCells := [] })] := by
+    simp only [mkVertex, filter_ne_of_not_mem_keys _ _ hk]
+  have hedges : (m.mkVertex k x y).edges = m.edges := rfl
+  have hcells : (m.mkVertex k x y).cells = m.cells := rfl
+  have hvk : (m.mkVertex k x y).vertices.map (·.1) = m.vertices.map (·.1) ++ [k] := by
+    rw [hverts]; simp
+  refine ⟨⟨?_, ?_, ?_, ?_, hN, ?_⟩, hvk, hedges, hcells⟩
+  · obtain ⟨k1, k2, k3, k4, k5, k6⟩ := hK
+    refine ⟨?_, k2, k3, ?_, k5, k6⟩
+    · intro p hp
+      rw [hverts] at hp
+      rcases List.mem_append.mp hp with hp | hp
+      · exact k1 p hp
+      · simp only [List.mem_singleton] at hp; subst hp; rfl
+    · rw [hvk, List.nodup_append]
+      refine ⟨k4, by simp, ?_⟩
+      intro a ha b hb
+      simp only [List.mem_singleton] at hb
+      subst hb
+      intro hab; subst hab; exact hk ha
+  · intro p hp
+    rw [hverts] at hp
+    rw [hedges]
+    rcases List.mem_append.mp hp with hp | hp
+    · exact hE p hp
+    · simp only [List.mem_singleton] at hp; subst hp
+      refine ⟨by simp, ?_, by simp⟩
+      intro q hq hends
+      exfalso
+      obtain ⟨_, r1, r2⟩ := hR.1 q hq
+      simp only at hends
+      rcases hends with h | h
+      · exact hk (h ▸ r1)
+      · exact hk (h ▸ r2)
+  · intro p hp
+    rw [hverts] at hp
+    rw [hcells]
+    rcases List.mem_append.mp hp with hp | hp
+    · exact hC p hp
+    · simp only [List.mem_singleton] at hp; subst hp
+      refine ⟨by simp, ?_, by simp⟩
+      intro q hq hin
+      exfalso
+      exact hk ((hR.2 q hq).2 _ hin)
+  · refine ⟨?_, ?_⟩
+    · intro q hq
+      obtain ⟨r0, r1, r2⟩ := hR.1 q hq
+      rw [hvk]
+      exact ⟨r0, List.mem_append_left _ r1, List.mem_append_left _ r2⟩
+    · intro q hq
+      obtain ⟨r0, r1⟩ := hR.2 q hq
+      rw [hvk]
+      exact ⟨r0, fun v hv => List.mem_append_left _ (r1 v hv)⟩
+  · exact hJ
+
+theorem addCellTo_id (v : Vertex) (k : Id) : (addCellTo v k).id = v.id := by
+  unfold addCellTo; split <;> rfl
+theorem addCellTo_ownEdges (v : Vertex) (k : Id) : (addCellTo v k).ownEdges = v.ownEdges := by
+  unfold addCellTo; split <;> rfl
+theorem addCellTo_ownCells_of_not_mem (v : Vertex) (k : Id) (h : k ∉ v.ownCells) :
+    (addCellTo v k).ownCells = v.ownCells ++ [k] := by
+  unfold addCellTo; simp [h]
+
+theorem mkCell_vertices (m : Mesh) (k : Id) (verts : List Id) (hnd : verts.Nodup) :
+    (m.mkCell k verts).vertices =
+      m.vertices.map fun p => (p.1, if p.1 ∈ verts then addCellTo p.2 k else p.2) := by
+  simp only [mkCell]
+  rw [foldl_updVertex (fun x => addCellTo x k) verts hnd m]
+
+theorem mkCell_edges (m : Mesh) (k : Id) (verts : List Id) (hnd : verts.Nodup) :
+    (m.mkCell k verts).edges = m.edges := by
+  simp only [mkCell]
+  rw [foldl_updVertex (fun x => addCellTo x k) verts hnd m]
+
+theorem mkCell_cells (m : Mesh) (k : Id) (verts : List Id) (hnd : verts.Nodup) :
+    (m.mkCell k verts).cells =
+      (m.cells.filter fun p => p.1 != k) ++ [(k, { id := k, verts := verts })] := by
+  simp only [mkCell]
+  rw [foldl_updVertex (fun x => addCellTo x k) verts hnd m]
+
+theorem mkCell_vkeys (m : Mesh) (k : Id) (verts : List Id) (hnd : verts.Nodup) :
+    (m.mkCell k verts).vertices.map (·.1) = m.vertices.map (·.1) := by
+  simp [mkCell_vertices _ _ _ hnd, List.map_map, Function.comp_def]
+
+theorem OwnCellsP.mem_keys {m : Mesh} (h : OwnCellsP m) {p : Id × Vertex} (hp : p ∈ m.vertices)
+    {e : Id} (he : e ∈ p.2.ownCells) : e ∈ m.cells.map (·.1) := by
+  obtain ⟨ed, hed, _⟩ := (h p hp).1 e he
+  exact List.mem_map.mpr ⟨(e, ed), alGet?_some_mem hed, rfl⟩
+
+theorem mkCell_ownCellsP (m : Mesh) (k : Id) (verts : List Id) (hnd : verts.Nodup)
+    (hv : ∀ p ∈ m.vertices, p.1 = p.2.id)
+    (h : OwnCellsP m) (hk : k ∉ m.cells.map (·.1)) :
+    OwnCellsP (m.mkCell k verts) := by
+  intro p' hp'
+  rw [mkCell_vertices _ _ _ hnd] at hp'
+  obtain ⟨p, hp, rfl⟩ := List.mem_map.mp hp'
+  have hkp : k ∉ p.2.ownCells := fun hh => hk (h.mem_keys hp hh)
+  obtain ⟨h1, h2, h3⟩ := h p hp
+  have hid := hv p hp
+  rw [mkCell_cells _ _ _ hnd, filter_ne_of_not_mem_keys _ _ hk]
+  by_cases hab : p.1 ∈ verts
+  · simp only [hab, ↓reduceIte, addCellTo_id, addCellTo_ownCells_of_not_mem _ _ hkp]
+    refine ⟨?_, ?_, ?_⟩
+    · intro e he
+      rcases List.mem_append.mp he with he | he
+      · obtain ⟨ed, hed, hends⟩ := h1 e he
+        exact ⟨ed, by simp [alGet?_append, hed], hends⟩
+      · simp only [List.mem_singleton] at he
+        subst he
+        refine ⟨{ id := e, verts := verts }, ?_, ?_⟩
+        · simp [alGet?_append, (alGet?_eq_none_iff _ _).mpr hk, alGet?]
+        · simp only; rw [← hid]; exact hab
+    · intro q hq hends
+      rcases List.mem_append.mp hq with hq | hq
+      · exact List.mem_append_left _ (h2 q hq hends)
+      · simp only [List.mem_singleton] at hq
+        subst hq; simp
+    · rw [List.nodup_append]
+      refine ⟨h3, by simp, ?_⟩
+      intro x hx y hy
+      simp only [List.mem_singleton] at hy
+      subst hy
+      intro hxy; subst hxy; exact hkp hx
+  · simp only [hab, ↓reduceIte]
+    refine ⟨?_, ?_, h3⟩
+    · intro e he
+      obtain ⟨ed, hed, hends⟩ := h1 e he
+      exact ⟨ed, by simp [alGet?_append, hed], hends⟩
+    · intro q hq hends
+      rcases List.mem_append.mp hq with hq | hq
+      · exact h2 q hq hends
+      · simp only [List.mem_singleton] at hq
+        subst hq
+        simp only at hends
+        rw [← hid] at hends
+        exact absurd hends hab
+
+theorem mkCell_consP (m : Mesh) (k : Id) (verts : List Id) (h : ConsP m) (hk : k ∉ m.cells.map (·.1))
+    (hnd : verts.Nodup) (hsub : ∀ v ∈ verts, v ∈ m.vertices.map (·.1))
+    (hj : ∀ ab ∈ cyclicPairs verts, JoinedP m ab.1 ab.2) :
+    ConsP (m.mkCell k verts) := by
+  obtain ⟨hK, hE, hC, hR, hN, hJ⟩ := h
+  have hcells : (m.mkCell k verts).cells = m.cells ++ [(k, { id := k, verts := verts })] := by
+    rw [mkCell_cells _ _ _ hnd, filter_ne_of_not_mem_keys _ _ hk]
+  have hedges := mkCell_edges m k verts hnd
+  have hvk := mkCell_vkeys m k verts hnd
+  have hsim : ∀ p' ∈ (m.mkCell k verts).vertices, ∃ p ∈ m.vertices, p'.1 = p.1 ∧ p'.2.id = p.2.id ∧
+      p'.2.ownEdges = p.2.ownEdges := by
+    intro p' hp'
+    rw [mkCell_vertices _ _ _ hnd] at hp'
+    obtain ⟨p, hp, rfl⟩ := List.mem_map.mp hp'
+    refine ⟨p, hp, rfl, ?_, ?_⟩ <;> (simp only; split <;> simp [addCellTo_id, addCellTo_ownEdges])
+  refine ⟨?_, ?_, mkCell_ownCellsP m k verts hnd hK.1 hC hk, ?_, ?_, ?_⟩
+  · obtain ⟨k1, k2, k3, k4, k5, k6⟩ := hK
+    refine ⟨?_, by rw [hedges]; exact k2, ?_, by rw [hvk]; exact k4, by rw [hedges]; exact k5, ?_⟩
+    · intro p' hp'
+      obtain ⟨p, hp, e1, e2, _⟩ := hsim p' hp'
+      rw [e1, e2]; exact k1 p hp
+    · intro q hq
+      rw [hcells] at hq
+      rcases List.mem_append.mp hq with hq | hq
+      · exact k3 q hq
+      · simp only [List.mem_singleton] at hq; subst hq; rfl
+    · rw [hcells, List.map_append, List.nodup_append]
+      refine ⟨k6, by simp, ?_⟩
+      intro x hx y hy
+      simp only [List.map_cons, List.map_nil, List.mem_singleton] at hy
+      subst hy
+      intro hxy; subst hxy; exact hk hx
+  · refine OwnEdgesP_of_sim m (m.mkCell k verts) hedges ?_ hE
+    intro p' hp'
+    obtain ⟨p, hp, _, e2, e3⟩ := hsim p' hp'
+    exact ⟨p, hp, e2, e3⟩
+  · refine ⟨?_, ?_⟩
+    · intro q hq
+      rw [hedges] at hq
+      rw [hvk]
+      exact hR.1 q hq
+    · intro q hq
+      rw [hcells] at hq
+      rw [hvk]
+      rcases List.mem_append.mp hq with hq | hq
+      · exact hR.2 q hq
+      · simp only [List.mem_singleton] at hq; subst hq; exact ⟨rfl, hsub⟩
+  · intro q hq
+    rw [hcells] at hq
+    rcases List.mem_append.mp hq with hq | hq
+    · exact hN q hq
+    · simp only [List.mem_singleton] at hq; subst hq; exact hnd
+  · intro q hq ab hab
+    rw [hcells] at hq
+    have : JoinedP m ab.1 ab.2 := by
+      rcases List.mem_append.mp hq with hq | hq
+      · exact hJ q hq ab hab
+      · simp only [List.mem_singleton] at hq; subst hq; exact hj ab hab
+    obtain ⟨e, he, hh⟩ := this
+    exact ⟨e, by rw [hedges]; exact he, hh⟩
+
 end Mesh
 
 end Forsys
